@@ -211,6 +211,14 @@ class TDS(BaseRoutine):
         system.store_sparse_pattern(models=system.exist.pflow_tds)
         system.store_adder_setter(models=system.exist.pflow_tds)
         system.store_no_check_init(models=system.exist.pflow_tds)
+
+        # Arrays of external variables have been reallocated by `set_address`.
+        # Models that are not initialized again for TDS (`flags.tds == False`,
+        # e.g., `VSCShunt` and the DC network) would keep using the old arrays.
+        for mdl in system.exist.pflow_tds.values():
+            if mdl.n > 0:
+                mdl.get_inputs(refresh=True)
+
         system.vars_to_models()
 
         system.init(system.exist.tds, routine='tds')
